@@ -804,8 +804,6 @@ Proof.
 Qed.
 
 (* ================= 7. the whole record ================= *)
-Local Arguments members_of : simpl never.
-
 Section R.
 Variable isprint : Z -> bool.
 Hypothesis isprint_ascii : forall r, 0 <= r < 128 -> isprint r = (32 <=? r) && (r <? 127).
@@ -817,24 +815,24 @@ Definition lf_caller (cl : option (bytes * Z * bytes)) : bytes :=
   match cl with
   | None => []
   | Some (file, line, fn) =>
-      (x20 :: k_caller_file ++ x3d :: quote_go isprint file)
-      ++ (x20 :: k_caller_line ++ x3d :: dec_of_Z line)
-      ++ (x20 :: k_caller_function ++ x3d :: quote_go isprint fn)
+      (x20 :: lk_caller_file ++ x3d :: quote_go isprint file)
+      ++ (x20 :: lk_caller_line ++ x3d :: dec_of_Z line)
+      ++ (x20 :: lk_caller_function ++ x3d :: quote_go isprint fn)
   end.
 
 (* the line in the shape the loop lemmas read; [tsq] = the timestamp between its quotes *)
 Definition lf_line (tsq : bytes) (c : ecfg) (msg : bytes) (attrs : list attr) : bytes :=
-  (k_time ++ x3d :: tsq)
-  ++ (match e_name c with [] => [] | nm => x20 :: k_logger ++ x3d :: quote_go isprint nm end)
-  ++ (x20 :: k_level ++ x3d :: quote_go isprint (level_string g (e_lvl c)))
-  ++ (x20 :: k_msg ++ x3d :: quote_go isprint msg)
+  (lk_time ++ x3d :: tsq)
+  ++ (match e_name c with [] => [] | nm => x20 :: lk_logger ++ x3d :: quote_go isprint nm end)
+  ++ (x20 :: lk_level ++ x3d :: quote_go isprint (level_string g (e_lvl c)))
+  ++ (x20 :: lk_msg ++ x3d :: quote_go isprint msg)
   ++ concat (map (fun x => x20 :: x) (members_of isprint ShLogfmt 0 0 [] (norm_attrs attrs)))
   ++ lf_caller (e_caller c).
 
 Lemma caller_lf cl : caller_part isprint ShLogfmt cl = lf_caller cl.
 Proof.
   destruct cl as [[[file line] fn]|]; [|reflexivity].
-  unfold caller_part, lf_caller, quoted, n_caller, n_file, n_line, n_function, k_caller_file, k_caller_line, k_caller_function.
+  unfold caller_part, lf_caller, quoted, n_caller, n_file, n_line, n_function, lk_caller_file, lk_caller_line, lk_caller_function.
   repeat (cbn [app]; rewrite <- ?app_assoc). reflexivity.
 Qed.
 
@@ -847,7 +845,7 @@ Lemma encode_lf_raw c msg attrs : e_mode c = ShLogfmt -> blank_print c msg = fal
 Proof.
   intros Hm Hb. unfold blank_print in Hb. unfold encode. rewrite Hb, Hm. cbv zeta iota. f_equal.
   rewrite caller_lf. unfold lf_line.
-  unfold field, key_token, colon, comma, quoted, ser_top, render_members, n_time, n_logger, n_level, n_msg, k_time, k_logger, k_level, k_msg.
+  unfold field, key_token, colon, comma, quoted, ser_top, render_members, n_time, n_logger, n_level, n_msg, lk_time, lk_logger, lk_level, lk_msg.
   destruct (e_name c) as [|n0 nm]; repeat (cbn [app]; rewrite <- ?app_assoc); reflexivity.
 Qed.
 
@@ -865,16 +863,16 @@ Lemma caller_seg cl :
       (map printed (match cl with
                     | None => []
                     | Some (file, line, fn) =>
-                        [(k_caller_file, FQuoted file); (k_caller_line, FBare (dec_of_Z line)); (k_caller_function, FQuoted fn)]
+                        [(lk_caller_file, FQuoted file); (lk_caller_line, FBare (dec_of_Z line)); (lk_caller_function, FQuoted fn)]
                     end)).
 Proof.
   destruct cl as [[[file line] fn]|]; [|apply seg_nil].
   unfold lf_caller. cbn [map].
-  change [printed (k_caller_file, FQuoted file); printed (k_caller_line, FBare (dec_of_Z line)); printed (k_caller_function, FQuoted fn)]
-    with ([(k_caller_file, quote_go isprint file)] ++ [(k_caller_line, dec_of_Z line)] ++ [(k_caller_function, quote_go isprint fn)]).
+  change [printed (lk_caller_file, FQuoted file); printed (lk_caller_line, FBare (dec_of_Z line)); printed (lk_caller_function, FQuoted fn)]
+    with ([(lk_caller_file, quote_go isprint file)] ++ [(lk_caller_line, dec_of_Z line)] ++ [(lk_caller_function, quote_go isprint fn)]).
   apply seg_app; [apply seg_qpair; apply key_ok_lit; reflexivity| |exact eq_refl].
   apply seg_app; [|apply seg_qpair; apply key_ok_lit; reflexivity|exact eq_refl].
-  apply seg_blank. apply (seg_pair isprint isprint_ascii k_caller_line (FBare (dec_of_Z line))).
+  apply seg_blank. apply (seg_pair isprint isprint_ascii lk_caller_line (FBare (dec_of_Z line))).
   - apply key_ok_lit. reflexivity.
   - apply dec_bare_ok.
 Qed.
@@ -883,15 +881,15 @@ Lemma line_seg c msg attrs : dom_attrs attrs = true ->
   seg (lf_line (quote_go isprint (e_ts c)) c msg attrs) (map printed (fields_of g c msg attrs)).
 Proof.
   intros D. unfold lf_line, fields_of. cbn [map]. rewrite !map_app. cbn [map].
-  change (printed (k_time, FQuoted (e_ts c)) :: ?l) with ([(k_time, quote_go isprint (e_ts c))] ++ l).
+  change (printed (lk_time, FQuoted (e_ts c)) :: ?l) with ([(lk_time, quote_go isprint (e_ts c))] ++ l).
   apply seg_app.
-  { apply (seg_pair isprint isprint_ascii k_time (FQuoted (e_ts c))); [apply key_ok_lit; reflexivity|exact I]. }
+  { apply (seg_pair isprint isprint_ascii lk_time (FQuoted (e_ts c))); [apply key_ok_lit; reflexivity|exact I]. }
   2:{ destruct (e_name c); exact eq_refl. }
   apply seg_app.
   { destruct (e_name c) as [|n0 nm]; [apply seg_nil|]. cbn [map]. apply seg_qpair. apply key_ok_lit. reflexivity. }
   2:{ exact eq_refl. }
-  change [printed (k_level, FQuoted (level_string g (e_lvl c))); printed (k_msg, FQuoted msg)]
-    with ([(k_level, quote_go isprint (level_string g (e_lvl c)))] ++ [(k_msg, quote_go isprint msg)]).
+  change [printed (lk_level, FQuoted (level_string g (e_lvl c))); printed (lk_msg, FQuoted msg)]
+    with ([(lk_level, quote_go isprint (level_string g (e_lvl c)))] ++ [(lk_msg, quote_go isprint msg)]).
   rewrite <- app_assoc.
   assert (Lc : led (lf_caller (e_caller c))) by (destruct (e_caller c) as [[[file line] fn]|]; [exact eq_refl|exact I]).
   apply seg_app; [apply seg_qpair; apply key_ok_lit; reflexivity| |exact eq_refl].
@@ -957,3 +955,248 @@ Proof.
   split; [rewrite map_map; reflexivity|apply map_length].
 Qed.
 End R.
+
+(* ================= 8. one line: no control byte before the final line feed ================= *)
+Lemma some_inj {X} (a b : X) : Some a = Some b -> a = b.
+Proof. congruence. Qed.
+Lemma clean_byte_clean b : clean_byte b = true -> clean b.
+Proof. unfold clean_byte, clean. lia. Qed.
+Lemma clean_text_Forall t : clean_text t = true -> Forall clean t.
+Proof. apply forallb_Forall. apply clean_byte_clean. Qed.
+Lemma isdm_clean c : isdm c -> clean c.
+Proof. unfold isdm, clean. lia. Qed.
+Lemma dec_clean z : Forall clean (dec_of_Z z).
+Proof. destruct (dec_of_Z_dm z) as [H _]. eapply Forall_impl; [|exact H]. apply isdm_clean. Qed.
+Lemma join_clean sep l : Forall clean sep -> Forall (fun x => Forall clean x) l -> Forall clean (join_with sep l).
+Proof.
+  intros Hs. induction 1 as [|x t Hx Ht IH]; [constructor|].
+  destruct t as [|y t']; [exact Hx|].
+  change (join_with sep (x :: y :: t')) with (x ++ sep ++ join_with sep (y :: t')).
+  apply Forall_app. split; [exact Hx|]. apply Forall_app. split; [exact Hs|exact IH].
+Qed.
+Lemma bracket_clean l : Forall (fun x => Forall clean x) l -> Forall clean (bracket l).
+Proof.
+  intros H. unfold bracket. constructor; [lit|]. apply Forall_app. split.
+  - apply join_clean; [constructor; [lit|constructor]|exact H].
+  - constructor; [lit|constructor].
+Qed.
+Lemma bool_clean b : Forall clean (bool_text b).
+Proof. destruct b; cbn [bool_text]; lits; constructor. Qed.
+
+Section O.
+Variable isprint : Z -> bool.
+Hypothesis isprint_ascii : forall r, 0 <= r < 128 -> isprint r = (32 <=? r) && (r <? 127).
+Variable g : registry.
+Notation sv := (ser_value isprint ShLogfmt 0 0).
+Notation mo := (members_of isprint ShLogfmt 0 0).
+
+Lemma qclean s : Forall clean (quote_go isprint s).
+Proof. apply (quote_clean isprint isprint_ascii). Qed.
+
+Lemma ser_leaf_clean dk v : is_group v = false -> clean_leaf v = true -> Forall clean (sv dk v).
+Proof.
+  destruct v; cbn [is_group clean_leaf ser_value quoted json_wrap time_text]; intros G D; try discriminate;
+    try apply qclean; try apply dec_clean; try apply bool_clean.
+  - lits. constructor.
+  - apply clean_text_Forall. exact D.
+  - apply clean_text_Forall. exact D.
+  - constructor; [lit|]. apply Forall_app. split; [apply clean_text_Forall; exact D|constructor; [lit|constructor]].
+  - apply bracket_clean. apply Forall_map_intro. intros; apply qclean.
+  - apply bracket_clean. apply Forall_map_intro. intros; apply bool_clean.
+  - apply bracket_clean. apply Forall_map_intro. intros; apply dec_clean.
+  - apply bracket_clean. apply Forall_map_intro. intros; apply dec_clean.
+  - apply bracket_clean. apply Forall_map_intro. intros t Ht. apply clean_text_Forall. eapply forallb_in; eassumption.
+  - apply bracket_clean. apply Forall_map_intro. intros; apply qclean.
+  - apply bracket_clean. apply Forall_map_intro. intros t Ht.
+    constructor; [lit|]. apply Forall_app. split; [apply clean_text_Forall; eapply forallb_in; eassumption|constructor; [lit|constructor]].
+Qed.
+
+Definition tree_clean (v : value) : Prop :=
+  forall dk, Forall clean dk -> clean_value v = true ->
+    Forall clean (key_part ShLogfmt 0 0 (is_group v) dk ++ sv dk v).
+
+Lemma members_clean pfx items :
+  (forall k, clean_text k = true -> Forall clean (dotted pfx k)) ->
+  Forall (fun a => match a with A _ x => tree_clean x | ANil => True end) items ->
+  clean_attrs items = true ->
+  Forall clean (concat (map (fun x => x20 :: x) (mo pfx items))).
+Proof.
+  intros Hk. induction 1 as [|a t Ha Ht IH]; intros D; [constructor|].
+  destruct a as [k x|].
+  - unfold clean_attrs in D. cbn [attrs_all] in D. apply andb_true_iff in D. destruct D as [D Dt].
+    apply andb_true_iff in D. destruct D as [Dk Dx].
+    cbn [members_of map concat]. constructor; [lit|]. apply Forall_app. split; [|apply IH; exact Dt].
+    apply Ha; [apply Hk; exact Dk|exact Dx].
+  - cbn [members_of]. apply IH. exact D.
+Qed.
+
+Lemma dotted_clean pfx k : Forall clean pfx -> Forall clean k -> Forall clean (dotted pfx k).
+Proof.
+  intros Hp Hk. destruct pfx as [|c p]; [exact Hk|]. unfold dotted.
+  apply Forall_app. split; [exact Hp|]. constructor; [lit|exact Hk].
+Qed.
+
+Lemma tree_clean_all : forall v, tree_clean v.
+Proof.
+  apply value_tree_ind.
+  - intros v G dk Hdk D. rewrite G. unfold clean_value in D. rewrite tree_all_leaf in D by exact G.
+    cbn [key_part]. apply Forall_app. split; [|apply ser_leaf_clean; assumption].
+    apply Forall_app. split; [exact Hdk|constructor; [lit|constructor]].
+  - intros items H dk Hdk D. cbn [is_group key_part app]. rewrite ser_group.
+    unfold clean_value in D. rewrite tree_all_group in D.
+    apply members_clean; [|exact H|exact D].
+    intros k Ck. apply dotted_clean; [exact Hdk|apply clean_text_Forall; exact Ck].
+Qed.
+
+Lemma attrs_clean items : clean_attrs items = true ->
+  Forall clean (concat (map (fun x => x20 :: x) (mo [] items))).
+Proof.
+  intros D. apply members_clean; [| |exact D].
+  - intros k Ck. cbn [dotted]. apply clean_text_Forall. exact Ck.
+  - apply Forall_forall. intros a _. destruct a; [apply tree_clean_all|exact I].
+Qed.
+
+Lemma pair_clean k q : clean_text k = true -> Forall clean q -> Forall clean (x20 :: k ++ x3d :: q).
+Proof.
+  intros Hk Hq. constructor; [lit|]. apply Forall_app. split; [apply clean_text_Forall; exact Hk|].
+  constructor; [lit|exact Hq].
+Qed.
+
+Lemma caller_clean cl : Forall clean (lf_caller isprint cl).
+Proof.
+  destruct cl as [[[file line] fn]|]; [|constructor]. unfold lf_caller.
+  repeat (apply Forall_app; split); apply pair_clean; try reflexivity; try apply qclean; apply dec_clean.
+Qed.
+
+Lemma line_clean tsq c msg attrs : Forall clean tsq -> clean_attrs attrs = true ->
+  Forall clean (lf_line isprint g tsq c msg attrs).
+Proof.
+  intros Hts D. unfold lf_line.
+  repeat (apply Forall_app; split).
+  - apply clean_text_Forall. reflexivity.
+  - constructor; [lit|exact Hts].
+  - destruct (e_name c) as [|n0 nm]; [constructor|]. apply pair_clean; [reflexivity|apply qclean].
+  - apply pair_clean; [reflexivity|apply qclean].
+  - apply pair_clean; [reflexivity|apply qclean].
+  - apply attrs_clean. apply norm_attrs_all. exact D.
+  - apply caller_clean.
+Qed.
+
+Theorem one_line c msg attrs out :
+  e_mode c = ShLogfmt -> lf_clean_domain c attrs = true ->
+  encode isprint g c msg attrs = Some out ->
+  exists line, out = line ++ [x0a] /\ Forall clean line.
+Proof.
+  intros Hm D E. unfold lf_clean_domain in D. apply andb_true_iff in D. destruct D as [Dts Da].
+  destruct (blank_print c msg) eqn:Hb.
+  - rewrite (encode_blank isprint g c msg attrs Hm Hb) in E. apply some_inj in E. exists []. split; [symmetry; exact E|constructor].
+  - rewrite (encode_lf_raw isprint g c msg attrs Hm Hb) in E. apply some_inj in E. eexists. split; [symmetry; exact E|].
+    apply line_clean; [|exact Da].
+    constructor; [lit|]. apply Forall_app. split; [apply clean_text_Forall; exact Dts|constructor; [lit|constructor]].
+Qed.
+End O.
+
+(* the domain of the round trip lies inside the domain of the one-line claim *)
+Lemma forallb_impl {X} (f f' : X -> bool) l : (forall x, f x = true -> f' x = true) -> forallb f l = true -> forallb f' l = true.
+Proof.
+  intros H. induction l as [|x t IH]; [reflexivity|]. cbn [forallb]. rewrite !andb_true_iff. intros [H1 H2]. split; auto.
+Qed.
+Lemma key_byte_clean b : key_byte_ok b = true -> clean_byte b = true.
+Proof. unfold key_byte_ok, clean_byte. lia. Qed.
+Lemma qtext_byte_clean b : qtext_byte_ok b = true -> clean_byte b = true.
+Proof. unfold qtext_byte_ok, clean_byte. lia. Qed.
+Lemma bare_byte_clean b : bare_byte_ok b = true -> clean_byte b = true.
+Proof. unfold bare_byte_ok, clean_byte. lia. Qed.
+Lemma elem_byte_clean b : elem_byte_ok b = true -> clean_byte b = true.
+Proof. unfold elem_byte_ok. rewrite !andb_true_iff. intros [[[H _] _] _]. apply bare_byte_clean. exact H. Qed.
+Lemma legal_key_clean k : legal_key k = true -> clean_text k = true.
+Proof. destruct k as [|c k']; [discriminate|]. apply forallb_impl. apply key_byte_clean. Qed.
+Lemma qtext_clean t : qtext_ok t = true -> clean_text t = true.
+Proof. apply forallb_impl. apply qtext_byte_clean. Qed.
+Lemma bare_clean t : bare_ok t = true -> clean_text t = true.
+Proof. unfold bare_ok. rewrite andb_true_iff. intros [H _]. revert H. apply forallb_impl. apply bare_byte_clean. Qed.
+Lemma elem_clean t : elem_ok t = true -> clean_text t = true.
+Proof. destruct t as [|c t']; [discriminate|]. apply forallb_impl. apply elem_byte_clean. Qed.
+
+Lemma dom_leaf_clean v : is_group v = false -> dom_leaf v = true -> clean_leaf v = true.
+Proof.
+  destruct v; cbn [dom_leaf clean_leaf]; intros G D; try reflexivity.
+  - apply bare_clean; exact D.
+  - apply bare_clean; exact D.
+  - apply qtext_clean; exact D.
+  - revert D. apply forallb_impl. apply elem_clean.
+  - revert D. apply forallb_impl. apply qtext_clean.
+Qed.
+
+Lemma domain_clean c msg attrs : lf_domain c msg attrs = true -> lf_clean_domain c attrs = true.
+Proof.
+  unfold lf_domain, lf_clean_domain. rewrite !andb_true_iff. intros [[_ Hts] Da]. split.
+  - apply qtext_clean. exact Hts.
+  - revert Da. apply attrs_all_mono; [apply legal_key_clean|apply dom_leaf_clean].
+Qed.
+
+(* ================= 9. key order at every nesting level ================= *)
+Fixpoint levels_strict (v : value) {struct v} : Prop :=
+  match v with
+  | VGroup items =>
+      strictly items /\
+      (fix go (l : list attr) : Prop :=
+         match l with
+         | [] => True
+         | ANil :: t => go t
+         | A _ x :: t => levels_strict x /\ go t
+         end) items
+  | _ => True
+  end.
+(* the keys of this level are strictly ascending (so each occurs once), and so it is inside every group *)
+Definition attrs_strict (l : list attr) : Prop :=
+  strictly l /\ Forall (fun a => match a with A _ x => levels_strict x | ANil => True end) l.
+
+Lemma levels_strict_group items : levels_strict (VGroup items) <-> attrs_strict items.
+Proof.
+  unfold attrs_strict. cbn [levels_strict]. apply and_iff_compat_l.
+  induction items as [|a t IH]; [split; [constructor|exact (fun _ => I)]|].
+  destruct a as [k x|].
+  - rewrite IH. split; [intros [H1 H2]; constructor; assumption|intros H; inversion H; subst; split; assumption].
+  - rewrite IH. split; [intros H; constructor; [exact I|exact H]|intros H; inversion H; subst; assumption].
+Qed.
+
+Lemma norm_value_strict : forall v, levels_strict (norm_value v).
+Proof.
+  apply value_tree_ind.
+  - intros v G. rewrite norm_leaf by exact G. destruct v; try exact I. discriminate.
+  - intros items IH. rewrite norm_group. apply levels_strict_group. split; [apply sort_dedupe_strict|].
+    apply Forall_sort_dedupe. apply Forall_map_intro. intros a Ha. rewrite Forall_forall in IH. specialize (IH a Ha).
+    destruct a as [k x|]; [exact IH|exact I].
+Qed.
+
+Lemma norm_attrs_strict l : attrs_strict (norm_attrs l).
+Proof.
+  unfold norm_attrs. split; [apply sort_dedupe_strict|].
+  apply Forall_sort_dedupe. apply Forall_map_intro. intros a _. destruct a as [k x|]; [apply norm_value_strict|exact I].
+Qed.
+
+Lemma in_norm_attr k attrs : (exists v, In (A k v) attrs) <-> (exists v, In (A k v) (map norm_attr attrs)).
+Proof.
+  split; intros [v H].
+  - exists (norm_value v). apply in_map_iff. exists (A k v). split; [reflexivity|exact H].
+  - apply in_map_iff in H. destruct H as [a [E H]]. destruct a as [k' v'|]; [|discriminate].
+    cbn [norm_attr] in E. inversion E; subst. exists v'. exact H.
+Qed.
+
+(* one level: the members of ANY group (and the top level) after normalisation *)
+Theorem level_order items :
+  strictly (sort_dedupe (map norm_attr items))
+  /\ NoDup (map akey (sort_dedupe (map norm_attr items)))
+  /\ (forall k, last_value k (sort_dedupe (map norm_attr items)) = last_value k (map norm_attr items))
+  /\ (forall k, (exists v, In (A k v) items) <-> (exists v, In (A k v) (sort_dedupe (map norm_attr items)))).
+Proof.
+  split; [apply sort_dedupe_strict|]. split; [apply strictly_nodup, sort_dedupe_strict|].
+  split; [intros k; apply last_wins|]. intros k. rewrite in_norm_attr. apply keys_preserved.
+Qed.
+
+Theorem keys_order attrs :
+  attrs_strict (norm_attrs attrs)
+  /\ norm_attrs attrs = sort_dedupe (map norm_attr attrs)
+  /\ (forall items, norm_value (VGroup items) = VGroup (sort_dedupe (map norm_attr items))).
+Proof. split; [apply norm_attrs_strict|]. split; [reflexivity|]. exact norm_group. Qed.
